@@ -31,6 +31,7 @@ type Obligation struct {
 	Goal    *Term
 	GetVals []*Term
 	Cover   bool // a cover obligation expects SAT (reachability / non-vacuity)
+	Pre     []*Term // call cover: the state before the call; vacuous only if Pre is satisfiable and Hyps is not
 	Support bool
 	Res     *ProveResult
 	except  string
